@@ -23,7 +23,7 @@ var readOnlyMethods = map[string]bool{"Cmp": true, "CmpAbs": true, "Sign": true,
 	"Equal": true, "IsZero": true}
 
 type gscope struct {
-	names map[string]bool
+	names map[string]string // local name -> "" or the package-level root it may point into (o := SubOrder)
 	up    *gscope
 }
 
@@ -33,22 +33,73 @@ type gscan struct {
 	init bool
 }
 
-func (g *gscan) push() { g.sc = &gscope{names: map[string]bool{}, up: g.sc} }
+func (g *gscan) push() { g.sc = &gscope{names: map[string]string{}, up: g.sc} }
 func (g *gscan) pop()  { g.sc = g.sc.up }
 
 func (g *gscan) declare(id *ast.Ident) {
 	if id != nil && id.Name != "_" {
-		g.sc.names[id.Name] = true
+		g.sc.names[id.Name] = ""
 	}
 }
 
 func (g *gscan) local(n string) bool {
+	_, ok := g.lookup(n)
+	return ok
+}
+
+func (g *gscan) lookup(n string) (alias string, ok bool) {
 	for s := g.sc; s != nil; s = s.up {
-		if s.names[n] {
-			return true
+		if a, ok := s.names[n]; ok {
+			return a, true
 		}
 	}
-	return false
+	return "", false
+}
+
+// aliasOf: the package-level identifier (or "pkg." + imported package) that
+// the value of e may point into: e is rooted in it, or in a local that is.
+func (g *gscan) aliasOf(e ast.Expr) string {
+	if u, ok := e.(*ast.UnaryExpr); ok && u.Op == token.AND {
+		e = u.X
+	}
+	id := root(e)
+	if id == nil || id.Name == "_" || id.Name == "nil" {
+		return ""
+	}
+	if a, ok := g.lookup(id.Name); ok {
+		return a
+	}
+	if base, ok := g.p.imports()[id.Name]; ok {
+		if _, sel := e.(*ast.Ident); sel {
+			return ""
+		}
+		return "pkg." + base
+	}
+	return id.Name
+}
+
+// bind: local id now holds the value of rhs: a write through it later is a
+// write to the package-level object rhs is rooted in (o := SubOrder; o.Rsh(o, 1)).
+func (g *gscan) bind(id *ast.Ident, rhs ast.Expr) {
+	if a := g.aliasOf(rhs); a != "" {
+		for s := g.sc; s != nil; s = s.up {
+			if _, ok := s.names[id.Name]; ok {
+				s.names[id.Name] = a
+				return
+			}
+		}
+	}
+}
+
+func (g *gscan) mark(name string) {
+	switch {
+	case len(name) > 4 && name[:4] == "pkg.":
+		g.p.assignedPkg[name[4:]] = true
+	case g.init:
+		g.p.assignedInit[name] = true
+	default:
+		g.p.assigned[name] = true
+	}
 }
 
 // root: the identifier an lvalue / receiver expression starts from (nil for
@@ -75,20 +126,28 @@ func root(e ast.Expr) *ast.Ident {
 }
 
 // touched: the storage e starts from is written (or may be, through a pointer).
-func (g *gscan) touched(e ast.Expr) {
+func (g *gscan) touched(e ast.Expr) { g.touch(e, false) }
+
+// touch: through = true for x.M(..) and &x, which reach the object x points to even
+// when x is a plain local name.
+func (g *gscan) touch(e ast.Expr, through bool) {
 	id := root(e)
-	if id == nil || id.Name == "_" || g.local(id.Name) {
+	if id == nil || id.Name == "_" {
+		return
+	}
+	if a, ok := g.lookup(id.Name); ok {
+		if a != "" {
+			if _, plain := e.(*ast.Ident); !plain || through { // (o = .. re-binds the local; o.f = .., o.M(..), *o = .. write the target)
+				g.mark(a)
+			}
+		}
 		return
 	}
 	if base, ok := g.p.imports()[id.Name]; ok {
-		g.p.assignedPkg[base] = true
+		g.mark("pkg." + base)
 		return
 	}
-	if g.init {
-		g.p.assignedInit[id.Name] = true
-	} else {
-		g.p.assigned[id.Name] = true
-	}
+	g.mark(id.Name)
 }
 
 func (g *gscan) fieldList(fl *ast.FieldList) {
@@ -123,7 +182,9 @@ func (g *gscan) expr(e ast.Expr) {
 			return false
 		case *ast.UnaryExpr:
 			if n.Op == token.AND {
-				g.touched(n.X) // (the address escapes: later writes are not seen)
+				if _, isLit := n.X.(*ast.CompositeLit); !isLit {
+					g.touch(n.X, true) // (the address escapes: later writes are not seen)
+				}
 			}
 		case *ast.CallExpr:
 			if se, ok := n.Fun.(*ast.SelectorExpr); ok && !readOnlyMethods[se.Sel.Name] {
@@ -132,7 +193,7 @@ func (g *gscan) expr(e ast.Expr) {
 						return true // pkg.F(..): a function of an imported package
 					}
 				}
-				g.touched(se.X) // g.M(..) may write g in place
+				g.touch(se.X, true) // g.M(..) may write g in place
 			}
 		}
 		return true
@@ -160,13 +221,17 @@ func (g *gscan) stmt(s ast.Stmt) {
 		g.block(s)
 	case *ast.AssignStmt:
 		g.exprs(s.Rhs)
-		for _, l := range s.Lhs {
-			if id, ok := l.(*ast.Ident); ok && s.Tok == token.DEFINE {
+		for i, l := range s.Lhs {
+			id, isId := l.(*ast.Ident)
+			if isId && s.Tok == token.DEFINE {
 				g.declare(id)
-				continue
+			} else {
+				g.expr(l)
+				g.touched(l)
 			}
-			g.expr(l)
-			g.touched(l)
+			if isId && g.local(id.Name) && len(s.Lhs) == len(s.Rhs) {
+				g.bind(id, s.Rhs[i])
+			}
 		}
 	case *ast.IncDecStmt:
 		g.expr(s.X)
@@ -177,8 +242,11 @@ func (g *gscan) stmt(s ast.Stmt) {
 				switch sp := sp.(type) {
 				case *ast.ValueSpec:
 					g.exprs(sp.Values)
-					for _, n := range sp.Names {
+					for i, n := range sp.Names {
 						g.declare(n)
+						if len(sp.Values) == len(sp.Names) && n.Name != "_" {
+							g.bind(n, sp.Values[i])
+						}
 					}
 				case *ast.TypeSpec:
 					g.declare(sp.Name)
@@ -221,6 +289,9 @@ func (g *gscan) stmt(s ast.Stmt) {
 			}
 			if id, ok := kv.(*ast.Ident); ok && s.Tok == token.DEFINE {
 				g.declare(id)
+				if id.Name != "_" {
+					g.bind(id, s.X) // (the elements of a package-level slice are its pointers)
+				}
 			} else {
 				g.expr(kv)
 				g.touched(kv)
